@@ -1,12 +1,17 @@
 #!/bin/bash
-# tools/trymut.sh <patch.diff> <ID> [quick|thorough] [extra check args]  — apply a seeded change to /repo, run the check, undo.
+# tools/trymut.sh <patch.diff> <ID> [quick|thorough] [extra check args]
+# Tries a seeded change without touching /repo: copies /repo's working tree to a scratch directory,
+# applies the patch there and runs the check against the copy (VERIF_REPO), with its own build
+# directory and its own evidence/replay directory. Everything is removed afterwards.
 set -u
-patch="$1"; id="$2"; tier="${3:-quick}"; shift 3 2>/dev/null || shift $#
+patch="$(realpath "$1")"; id="$2"; tier="${3:-quick}"; shift 3 2>/dev/null || shift $#
+tmp=$(mktemp -d /tmp/vfmut.XXXXXX)
+trap 'rm -rf "$tmp"' EXIT
+mkdir -p "$tmp/repo"
+rsync -a --exclude .git /repo/ "$tmp/repo/"
+( cd "$tmp/repo" && { git apply "$patch" 2>/dev/null || git apply -C1 "$patch"; } ) || { echo "patch does not apply"; exit 2; }
 cd /verif
-if ! git -C /repo diff --quiet; then echo "repo has uncommitted changes"; exit 2; fi
-patch="$(realpath "$patch")"
-git -C /repo apply "$patch" 2>/dev/null || git -C /repo apply -C1 "$patch" || { echo "patch does not apply"; exit 2; }
-./check "$id" "$tier" "$@"; rc=$?
-git -C /repo checkout -- . 
+VERIF_REPO="$tmp/repo" VERIF_BUILD="$tmp/build" VERIF_OUTDIR="$tmp/out" ./check "$id" "$tier" "$@"; rc=$?
+if [ -d "$tmp/out/replays" ]; then mkdir -p /verif/replays/mut; cp "$tmp"/out/replays/*.json /verif/replays/mut/ 2>/dev/null; fi
 echo "exit=$rc"
 exit $rc
